@@ -22,6 +22,8 @@ for id in "$@"; do
   echo "== $name check $id rc=$rc"; echo "$out" | grep -E "violation \[|INCONCLUSIVE|KNOWN" | cut -c1-260 | head -6
   res="$res $id:rc=$rc"
 done
+# re-check of an already kept seed: nothing is copied or overwritten
+[ "$(readlink -f "$src")" = "$(readlink -f /verif/seeded/$name)" ] && exit 0
 mkdir -p /verif/seeded/$name
 cp "$src/patch.diff" "$src/demo.py" /verif/seeded/$name/
 [ -f "$src/meta.json" ] && cp "$src/meta.json" /verif/seeded/$name/meta_agent.json
